@@ -28,7 +28,7 @@ CRASH_IS_VIOLATION = False
 SERS = ["json", "msgpack", "cbor", "ubjson"]
 TRANSPORTS = ["websocket", "rawsocket"]
 NPARTS = {"quick": 8, "thorough": 8}
-SCENARIOS = {"quick": 260, "thorough": 4000}          # per shard
+SCENARIOS = {"quick": 400, "thorough": 4000}          # per shard (~25 ms each)          # per shard
 RUNTIME_ERROR = L.RUNTIME_ERROR
 TYPE_CHECK_ERROR = "wamp.error.type_check_error"
 
@@ -81,13 +81,13 @@ def shards(tier, seed):
     n = NPARTS[tier]
     for fw in ("tx", "aio"):
         for part in range(n):
-            out.append({"name": "%s-%d" % (fw, part), "fw": fw, "timeout": 1500,
+            out.append({"name": "%s-%d" % (fw, part), "fw": fw, "timeout": 3600 if tier == "quick" else 21600,
                         "params": {"fw": fw, "part": part, "parts": n, "tier": tier, "seed": seed,
                                    "scenarios": SCENARIOS[tier]}})
     if tier == "thorough":
         for fw in ("tx", "aio"):
             for part in range(2):
-                out.append({"name": "%s-nonvx-%d" % (fw, part), "fw": fw, "timeout": 1500, "env": {"AUTOBAHN_USE_NVX": "0"},
+                out.append({"name": "%s-nonvx-%d" % (fw, part), "fw": fw, "timeout": 21600, "env": {"AUTOBAHN_USE_NVX": "0"},
                             "params": {"fw": fw, "part": 100 + part, "parts": n, "tier": tier, "seed": seed,
                                        "scenarios": SCENARIOS[tier] // 3}})
     return out
@@ -106,8 +106,9 @@ def make_cfg(rng, k):
             "traceback_app": rng.random() < 0.4, "ue_raises": rng.random() < 0.3, "disclose": rng.random() < 0.2}
 
 
-def _payload_for(kind, gen, rng, cfg, allow_error_kw=True):
-    """Constructor arguments an instance of a class of ``kind`` is raised with at the callee."""
+def _payload_for(kind, gen, rng, cfg, allow_error_kw=True, hostile=False):
+    """Constructor arguments an instance of a class of ``kind`` is raised with at the callee (``hostile``: a payload
+    merely shaped like that - values the constructor's own checks refuse included)."""
     def kw(n=None):
         d = gen.kwargs(n)
         for k in list(d):
@@ -133,7 +134,7 @@ def _payload_for(kind, gen, rng, cfg, allow_error_kw=True):
             d["msg"] = gen.value(2)
         return [], d
     if kind == "picky":
-        a = [rng.choice([0, 1, 404, 2 ** 31, 2 ** 53])]
+        a = [rng.choice([0, 1, 404, 2 ** 31, 2 ** 53] + ([-1, -2 ** 53, "404", 1.5, None, True] if hostile else []))]
         if rng.random() < 0.6:
             a.append(rng.choice(L.STRINGS))
         d = kw(rng.choice([0, 0, 1, 2]))
@@ -264,7 +265,7 @@ def gen_scenario(rng, cfg):
                 u = "com.c18.e%d" % rng.randrange(10 ** 6)
             # shape the payload like a constructor in play would take it now and then, else free
             shape = rng.choice(["free", "free", "kwonly", "arity2", "arity0", "picky"])
-            a, k = _payload_for("kw" if shape == "free" else shape, gen, rng, cfg, allow_error_kw=False)
+            a, k = _payload_for("kw" if shape == "free" else shape, gen, rng, cfg, allow_error_kw=False, hostile=True)
             if what == "foreign":
                 r = rng.random()
                 if r < 0.05:
